@@ -17,6 +17,8 @@ package main
 //@ ghost decoded bool
 //@ ghost valid bool
 //@ ghost stored bool
+//@ ghost weekOK bool
+//@ ghost cfgOK bool
 
 // An object is written only for a POST whose body decodes and validates; every
 // other request gets 400 or 405 and no storage call; 200 is answered only
@@ -46,12 +48,19 @@ package main
 //@   ensures result == nil ==> forall i int :: 0 <= i && i < len(r.Programs) ==> r.Programs[i] != nil
 //@   loop 1: invariant forall i int :: 0 <= i && i <= rangeindex ==> r.Programs[i] != nil && cfg.HasGOARCH(r.Programs[i].GOARCH) && cfg.HasGOOS(r.Programs[i].GOOS) && cfg.HasGoVersion(r.Programs[i].GoVersion) && cfg.HasProgram(r.Programs[i].Program) && cfg.HasVersion(r.Programs[i].Program, r.Programs[i].Version)
 //@   ensures result == nil ==> forall i int :: 0 <= i && i < len(r.Programs) ==> cfg.HasGOARCH(r.Programs[i].GOARCH) && cfg.HasGOOS(r.Programs[i].GOOS) && cfg.HasGoVersion(r.Programs[i].GoVersion) && cfg.HasProgram(r.Programs[i].Program) && cfg.HasVersion(r.Programs[i].Program, r.Programs[i].Version)
+//@   loop 1: invariant forall i int, k string :: 0 <= i && i <= rangeindex && in(k, r.Programs[i].Counters) ==> cfg.HasCounter(r.Programs[i].Program, k)
+//@   loop 1: invariant forall i int, k string :: 0 <= i && i <= rangeindex && in(k, r.Programs[i].Stacks) ==> cfg.HasStack(r.Programs[i].Program, tconfig.SpecStackName(k))
 //@   loop 2: invariant p != nil && forall c string :: visited(p.Counters, c) ==> cfg.HasCounter(p.Program, c)
-//@   loop 3: invariant p != nil && forall s string :: visited(p.Stacks, s) ==> cfg.HasStack(p.Program, specBefore(s))
-//@   at call Cut#1: after assume result0 == specBefore(arg0)
-//@   modifies nothing
+//@   loop 3: invariant p != nil && forall s string :: visited(p.Stacks, s) ==> cfg.HasStack(p.Program, tconfig.SpecStackName(s))
+//@   at call Cut#1: after assume result0 == tconfig.SpecStackName(arg0)
+// C11: validate accepts exactly the reports whose week and config strings are
+// well formed, whose X is not 0 and which are approved in the shared vocabulary
+// of package config (the one the uploader's output is proved to satisfy).
+//@   at call Parse#1: ghost $cfgOK = false
+//@   at call Parse#1: after ghost $weekOK = result1 == nil
+//@   at call IsValid#1: after ghost $cfgOK = result
+//@   ensures result == nil ==> $weekOK && $cfgOK && approvedReport(cfg, r)
+//@   ensures $weekOK && $cfgOK && r.X != 0 && approvedReport(cfg, r) ==> result == nil
+//@   modifies $weekOK, $cfgOK
 
-// specBefore(k): the part of k before its first newline (see package upload).
-func specBefore(k string) string { return k }
 
-//@ uninterpreted specBefore
